@@ -154,29 +154,50 @@ LeafSurfs(t) == CASE t[1] = "S" -> {AbsI(t[2])}
                   [] t[1] \in {"C", "R"} -> {}
                   [] t[1] = "N" -> LeafSurfs(t[2])
                   [] OTHER -> UNION { LeafSurfs(t[i]) : i \in 2..Len(t) }
+(* A flagged surface bounds a converted cell directly (instance <<n, 0>>), through the TRCL of the cell that     *)
+(* names it (instance <<n, c, 0>>: the cell's own copy of the surface, moved with the cell) or through a qualified *)
+(* number 1000*c + n written on another cell (the same copy).  Every instance is due an entry of the flag's     *)
+(* kind on a surface of the file with the instance's locus; entries are per surface of the file: copies that    *)
+(* the de-duplication merged share one entry, copies kept apart have one each.                                  *)
+InstQuad(D, s, k) ==
+  LET q == CardQ(s)
+      F(P) == LET P1 == IF k = 0 THEN P ELSE ToAux(CellOf(D, k).trcl, P)
+              IN Q4(q, IF s.tr = 0 THEN P1 ELSE ToAux(TrOf(D, s.tr), P1))
+  IN QuadOfValues(F)
 BCVerdict(r) ==
   LET D == r.deck  T == r.file
       flagged == { s \in SeqSet(D.surfs) : s.bc # "" }
-      used == UNION { LeafSurfs(c.geom) : c \in { x \in SeqSet(D.cells) : x.u = 0 /\ x.imp # 0 } }
+      conv == { x \in SeqSet(D.cells) : x.u = 0 /\ x.imp # 0 }
+      (* <<surface number, cell whose TRCL moves it or 0>> for every leaf of a converted cell *)
+      (* third component: 1 for a qualified number - the converter keeps the surface it generates for the number *)
+      (* 1000*c + n apart from the copy it makes for cell c itself (same locus, one entry each unless merged)    *)
+      instOf(c, n) == IF ~HasSurf(D, n) THEN <<n % 1000, IF CellOf(D, n \div 1000).hastrcl THEN n \div 1000 ELSE 0, 1>>
+                      ELSE <<n, IF c.hastrcl THEN c.n ELSE 0, 0>>
+      used == UNION { { instOf(c, n) : n \in LeafSurfs(c.geom) } : c \in conv }
   IN IF \E s \in flagged : IsBody(s)
      THEN (IF r.result = "ok" THEN {<<"macrobody_flag_accepted", 0>>} ELSE {})
      ELSE IF r.result # "ok" THEN {<<"crash", 0>>}
      ELSE
-       LET bounding == { s \in flagged : s.n \in used /\ ~IsBody(s) }
+       LET surfOf(n) == CHOOSE s \in SeqSet(D.surfs) : s.n = n
+           insts == { i \in used : \E s \in flagged : s.n = i[1] /\ ~IsBody(s) }
            entries == T.bc.items
            kindOf(s) == IF s.bc = "*" THEN "REFLECTION" ELSE "COSINUS"
-           witOf(n) == { T.wit[i] : i \in { j \in 1..Len(T.wit) : T.wit[j].id = n } }
-           surfIds == { T.surfs[i].id : i \in 1..Len(T.surfs) }
+           witOf(n) == { T.wit[x] : x \in { y \in 1..Len(T.wit) : T.wit[y].id = n } }
+           surfIds == { T.surfs[x].id : x \in 1..Len(T.surfs) }
            (* the entry designates the flagged surface itself when its number is written in the file (the volumes  *)
            (* of the cells it bounds name that number); only a surface merged away by the de-duplication may be   *)
            (* designated through the identical surface that replaced it                                          *)
-           match(e, s) == /\ e.kind = kindOf(s)
-                          /\ \E w \in witOf(e.id) : Proportional(w, MainQuad(D, s))
-                          /\ (s.n \in surfIds => e.id = s.n)
-       IN { <<"entry_missing_or_repeated", s.n>> :
-              s \in { x \in bounding : Cardinality({ i \in 1..Len(entries) : match(entries[i], x) }) # 1 } }
-          \cup { <<"entry_for_no_flagged_bounding_surface", entries[i].id>> :
-                   i \in { j \in 1..Len(entries) : ~\E s \in bounding : match(entries[j], s) } }
+           match(e, i) == LET s == surfOf(i[1]) IN
+                          /\ e.kind = kindOf(s)
+                          /\ \E w \in witOf(e.id) : Proportional(w, InstQuad(D, s, i[2]))
+                          /\ (i[2] = 0 /\ s.n \in surfIds => e.id = s.n)
+           M(i) == { x \in 1..Len(entries) : match(entries[x], i) }
+       IN { <<"entry_missing_or_repeated", i[1]>> :
+              i \in { x \in insts : M(x) = {} \/ Cardinality(M(x)) > Cardinality({ y \in insts : M(y) = M(x) }) } }
+          \cup { <<"entry_missing_or_repeated", entries[x].id>> :
+                   x \in { y \in 1..Len(entries) : \E z \in 1..Len(entries) : z # y /\ entries[z].id = entries[y].id } }
+          \cup { <<"entry_for_no_flagged_bounding_surface", entries[x].id>> :
+                   x \in { y \in 1..Len(entries) : ~\E i \in insts : match(entries[y], i) } }
 
 Clauses == IF "CLAUSES" \in DOMAIN IOEnv THEN IOEnv.CLAUSES ELSE "owner,valid"
 HasClause(c) == \E i \in 1..(Len(Clauses) - Len(c) + 1) : SubSeq(Clauses, i, i + Len(c) - 1) = c
